@@ -159,7 +159,19 @@ fn neighbourhood(signed: bool, bits: u32) -> Vec<String> {
 pub fn run(tier: Tier, rep: &mut Report) -> (String, String) {
     let th = n_threads(tier);
     let n = tier.pick(5, 6, 2);
-    let small = strings_over(&["0", "1", "2", "9", "-", "+", "a", " ", "٣"], n);
+    // '/' and ':' are the ASCII neighbours of the digit range
+    let mut small = strings_over(&["0", "1", "2", "9", "-", "+", "a", " ", "٣", "/", ":"], tier.pick(4, 5, 2));
+    small.extend(strings_over(&["0", "1", "2", "9", "-", "+", "a", " ", "٣"], n));
+    // every byte class boundary: each ASCII char (and a few non-ASCII ones) in every position of short digit templates
+    let mut probes: Vec<char> = (0u8..128).map(|b| b as char).collect();
+    probes.extend(['\u{80}', 'ñ', '٠', '٩', '０', '９', '\u{ff10}', '\u{1d7ce}', '\u{10ffff}']);
+    for &c in &probes {
+        for t in ["#", "-#", "#1", "1#", "-#1", "-1#", "1#1", "12#", "#-1", "+#"] {
+            small.push(t.replace('#', &c.to_string()));
+        }
+    }
+    small.sort();
+    small.dedup();
     let suffixes: &[&str] = &["", "x", "-", "0a", " 1", "9", "ñ"];
     // every value of the 8- and 16-bit types, canonical and decorated
     let mut vals16: Vec<String> = Vec::new();
@@ -218,7 +230,7 @@ pub fn run(tier: Tier, rep: &mut Report) -> (String, String) {
     rep.traces = rep.transitions;
     (
         "state = one input string (x suffix for prefix parsing); transition = primitive::parse_T (whole string), Parser::parse_T and parse_with!(parser, T) (prefix); oracle: whole string = str::parse::<T> unless the string starts with '+'; prefix = optional '-' (signed only) + longest ASCII-digit run, value by checked 128-bit accumulation, failure (an Err and no parser) if no digit or out of range, otherwise the unconsumed rest by address (offset bookkeeping belongs to C13); non-trivial = a string containing a digit that must be rejected".into(),
-        format!("12 integer types + bool; all strings of <= {n} atoms over [0,1,2,9,-,+,a,' ',٣] ({}) x suffixes {suffixes:?}; every value from i16::MIN-3 to u16::MAX+3 (canonical; decorated with leading zeros, trailing x, leading + for |v|<300 and every 97th); per type MAX-2..MAX+3 with signs, 0/1/2/40 leading zeros, one extra digit; bool words within edit distance 1 of true/false ({})", small.len(), words.len()),
+        format!("12 integer types + bool; all strings of <= {n} atoms over [0,1,2,9,-,+,a,' ',٣] and of <= {} atoms with '/' and ':' (the ASCII neighbours of the digits) added, every ASCII char and 9 non-ASCII digits/extremes in every position of 10 short digit templates ({} strings in all) x suffixes {suffixes:?}; every value from i16::MIN-3 to u16::MAX+3 (canonical; decorated with leading zeros, trailing x, leading + for |v|<300 and every 97th); per type MAX-2..MAX+3 with signs, 0/1/2/40 leading zeros, one extra digit; bool words within edit distance 1 of true/false ({})", tier.pick(4, 5, 2), small.len(), words.len()),
     )
 }
 
